@@ -245,7 +245,7 @@ def check(ctx):
     # what each kind of the specifier record collects (spec["alignment"] etc. is filled by _add_declaration_specifier(spec, VALUE, KIND))
     spec_kinds = {}
     for meth, info in cur14.items():
-        for lab, fa in info["records"]:
+        for lab, fa in info.get("calls", info["records"]):
             if lab == "call:_add_declaration_specifier":
                 for kq in fa.get("p2", []):
                     spec_kinds.setdefault(kq.strip("'\""), set()).update(fa.get("p1", []))
